@@ -1,19 +1,22 @@
 // C14 harness: time-range pruning never hides a document that lies in the requested range.
 //
 // Correspondence channels (implementation vs Lean model through drv_c14):
-//   bitmask.hasbits   util.Bitmask.HasBitsIn on all bitmaps up to N bits (and sparse 3-byte bitmaps) x all (l, r)
-//   bitmask.panic     HasBitsIn with indices outside the slice (Go's index panics)
-//   bitmask.ops       NewBitmask / Set / Get sequences, negative and odd sizes
-//   dist.small        seq.MIDsDistribution in a millisecond-sized world: all from/to/bucket, all small Add sets,
-//                     midToIndex of every probe and IsIntersecting of every probe pair (incl. MIDs >= 2^63)
-//   dist.real         real-sized windows (<= 24 h, minute bucket and odd buckets), documents far in the past/future
-//   dist.json         MarshalJSON image + does UnmarshalJSON restore it; UnmarshalJSON of crafted images
-//   info.build        frac.Info{From,To,CreationTime,DocsTotal}.BuildDistribution + IsIntersecting + Save/Load
-//   frac.info         Info() and IsIntersecting of REAL fractions (active, sealed, reloaded from .frac-cache and
-//                     from the index info block) vs the model of UpdateStats/BuildDistribution/persist
+//
+//	bitmask.hasbits   util.Bitmask.HasBitsIn on all bitmaps up to N bits (and sparse 3-byte bitmaps) x all (l, r)
+//	bitmask.panic     HasBitsIn with indices outside the slice (Go's index panics)
+//	bitmask.ops       NewBitmask / Set / Get sequences, negative and odd sizes
+//	dist.small        seq.MIDsDistribution in a millisecond-sized world: all from/to/bucket, all small Add sets,
+//	                  midToIndex of every probe and IsIntersecting of every probe pair (incl. MIDs >= 2^63)
+//	dist.real         real-sized windows (<= 24 h, minute bucket and odd buckets), documents far in the past/future
+//	dist.json         MarshalJSON image + does UnmarshalJSON restore it; UnmarshalJSON of crafted images
+//	info.build        frac.Info{From,To,CreationTime,DocsTotal}.BuildDistribution + IsIntersecting + Save/Load
+//	frac.info         Info() and IsIntersecting of REAL fractions (active, sealed, reloaded from .frac-cache and
+//	                  from the index info block) vs the model of UpdateStats/BuildDistribution/persist
+//
 // System oracle (property on the implementation alone, real FracManager + GrpcV1 in a child process):
-//   prune.search      Search(service:c14, [qf, qt]) returns exactly the ingested documents with qf <= MID <= qt
-//   prune.fetch       Fetch(ids) returns every ingested document that is requested
+//
+//	prune.search      Search(service:c14, [qf, qt]) returns exactly the ingested documents with qf <= MID <= qt
+//	prune.fetch       Fetch(ids) returns every ingested document that is requested
 package main
 
 import (
@@ -38,9 +41,11 @@ import (
 	"github.com/ozontech/seq-db/consts"
 	"github.com/ozontech/seq-db/disk"
 	"github.com/ozontech/seq-db/frac"
+	"github.com/ozontech/seq-db/frac/processor"
 	"github.com/ozontech/seq-db/fracmanager"
 	"github.com/ozontech/seq-db/logger"
 	"github.com/ozontech/seq-db/mappingprovider"
+	"github.com/ozontech/seq-db/parser"
 	pb "github.com/ozontech/seq-db/pkg/storeapi"
 	"github.com/ozontech/seq-db/seq"
 	"github.com/ozontech/seq-db/storeapi"
@@ -666,11 +671,90 @@ func infoChannel(o vh.Opts, r *vh.RNG, rep *vh.Report) {
 	rep.AddChannel(ch, o.Driver)
 }
 
+// ---------------------------------------------------------------- calcEnsuredIDsCount (pure)
+
+// infoFrac is a frac.Fraction that only has an Info (what calcEnsuredIDsCount reads of the next fraction)
+type infoFrac struct{ info *frac.Info }
+
+func (f infoFrac) Info() *frac.Info                                         { return f.info }
+func (f infoFrac) IsIntersecting(from, to seq.MID) bool                     { return f.info.IsIntersecting(from, to) }
+func (f infoFrac) Contains(mid seq.MID) bool                                { return f.info.IsIntersecting(mid, mid) }
+func (f infoFrac) DataProvider(context.Context) (frac.DataProvider, func()) { return nil, func() {} }
+func (f infoFrac) Suicide()                                                 {}
+
+func ensuredChannel(o vh.Opts, r *vh.RNG, rep *vh.Report) {
+	ch := vh.NewChannel("searcher.ensured", "real fracmanager.calcEnsuredIDsCount (export of C05) vs SV.Merge.calcEnsured: every ordered ID list over MIDs 1..3 x RIDs 1..2 (ties on MID), every border 0..4 of the next fraction, both orders, and no remaining fraction; plus random longer lists; non-trivial = some ID has MID equal to the border")
+	ch.Exhaustive = true
+	var univ []seq.ID
+	for m := 1; m <= 3; m++ {
+		for rid := 1; rid <= 2; rid++ {
+			univ = append(univ, seq.ID{MID: seq.MID(m), RID: seq.RID(rid)})
+		}
+	}
+	add := func(ids []seq.ID, desc bool, border int) {
+		ids = append([]seq.ID{}, ids...)
+		sort.Slice(ids, func(a, b int) bool {
+			if desc {
+				return seq.Less(ids[b], ids[a])
+			}
+			return seq.Less(ids[a], ids[b])
+		})
+		var src seq.IDSources
+		var ss []string
+		eq := false
+		for _, id := range ids {
+			src = append(src, seq.IDSource{ID: id})
+			ss = append(ss, fmt.Sprintf("%d.%d", uint64(id.MID), uint64(id.RID)))
+			eq = eq || int(id.MID) == border
+		}
+		order := seq.DocsOrderAsc
+		if desc {
+			order = seq.DocsOrderDesc
+		}
+		var rest fracmanager.List
+		next := "none"
+		if border >= 0 {
+			rest = fracmanager.List{infoFrac{&frac.Info{DocsTotal: 1, From: seq.MID(border), To: seq.MID(border)}}}
+			next = fmt.Sprintf("%d:%d", border, border)
+		}
+		n := fracmanager.VerifCalcEnsuredIDsCount(src, rest, order)
+		ch.Add(fmt.Sprintf("ensured %s %s %s", vh.B(desc), vh.JoinStrs(ss, ","), next), fmt.Sprintf("ok %d", n), eq, "desc="+vh.B(desc), fmt.Sprintf("len=%d", len(ids)))
+	}
+	for mask := 0; mask < 1<<len(univ); mask++ {
+		var ids []seq.ID
+		for i, id := range univ {
+			if mask>>i&1 == 1 {
+				ids = append(ids, id)
+			}
+		}
+		for _, desc := range []bool{true, false} {
+			for border := -1; border <= 4; border++ {
+				add(ids, desc, border)
+			}
+		}
+	}
+	for i := 0; i < o.Pick(200, 2000); i++ {
+		base := uint64(1_700_000_000_000 + r.Intn(1000))
+		seen := map[seq.ID]bool{}
+		var ids []seq.ID
+		for j := 0; j < r.Range(1, 30); j++ {
+			id := seq.ID{MID: seq.MID(base + uint64(r.Intn(6))), RID: seq.RID(r.Intn(5))}
+			if !seen[id] {
+				seen[id] = true
+				ids = append(ids, id)
+			}
+		}
+		add(ids, r.Bool(), int(base)+r.Range(-1, 6))
+	}
+	rep.AddChannel(ch, o.Driver)
+}
+
 // ---------------------------------------------------------------- system: real fractions in a child process
 
 type docSpec struct {
 	Off int64  `json:"off,omitempty"` // MID = creation time of the fraction + Off (ms)
 	Abs uint64 `json:"abs,omitempty"` // absolute MID when non-zero (MID 0 means "no ID" to DocProvider: not used)
+	R0  bool   `json:"r0,omitempty"`  // Off is relative to the creation time of fraction 0 (shared milliseconds across fractions)
 }
 
 type fracSpec struct {
@@ -689,6 +773,9 @@ type scenario struct {
 	Queries int        `json:"queries"`
 	Fetches int        `json:"fetches"`
 	Wrap    bool       `json:"wrap"` // also issue requests whose ends lie on different sides of 2^63
+	// Limited: run Searcher.SearchDocs with FractionsPerIteration 1..3, limits 1..n, both orders, no total, and compare
+	// with the first `limit` documents of the union in (MID, RID) order
+	Limited bool `json:"limited,omitempty"`
 }
 
 type realDoc struct{ mid, rid uint64 }
@@ -801,6 +888,9 @@ func childMain(path string) {
 			var mids []uint64
 			for _, d := range b {
 				mid := uint64(int64(rf.ct) + d.Off)
+				if d.R0 && len(fracs) > 0 {
+					mid = uint64(int64(fracs[0].ct) + d.Off)
+				}
 				if d.Abs != 0 {
 					mid = d.Abs
 				}
@@ -1032,6 +1122,58 @@ func childMain(path string) {
 				order = pb.Order_ORDER_ASC
 			}
 			doSearch(fmt.Sprintf("%d", q), qf, qt, order)
+		}
+		if sc.Limited {
+			ast, perr := parser.ParseSeqQL("service:c14", seq.TestMapping)
+			if perr != nil {
+				fmt.Println("child-error parse:", perr)
+				os.Exit(3)
+			}
+			less := func(a, b realDoc) bool { return a.mid < b.mid || (a.mid == b.mid && a.rid < b.rid) }
+			// ranges: everything, and the window of shared milliseconds around fraction 0's reference point
+			ref := fracs[0].ct - 1_000_000
+			for ri, rg := range [][2]uint64{{1, two63 - 1}, {ref - 3, ref + 3}, {ref, ref}} {
+				var in []realDoc
+				for _, d := range all {
+					if rg[0] <= d.mid && d.mid <= rg[1] {
+						in = append(in, d)
+					}
+				}
+				for _, desc := range []bool{true, false} {
+					sorted := append([]realDoc{}, in...)
+					sort.Slice(sorted, func(a, b int) bool {
+						if desc {
+							return less(sorted[b], sorted[a])
+						}
+						return less(sorted[a], sorted[b])
+					})
+					order := seq.DocsOrderDesc
+					if !desc {
+						order = seq.DocsOrderAsc
+					}
+					for perIter := 1; perIter <= 3; perIter++ {
+						searcher := fracmanager.NewSearcher(2, fracmanager.SearcherCfg{FractionsPerIteration: perIter})
+						for limit := 1; limit <= len(sorted)+1 && limit <= 14; limit++ {
+							qpr, err := searcher.SearchDocs(ctx, st.fm.GetAllFracs(), processor.SearchParams{AST: ast.Root, From: seq.MID(rg[0]), To: seq.MID(rg[1]), Limit: limit, Order: order})
+							status, gotS := "ok", "-"
+							if err != nil {
+								status = "error"
+							} else {
+								var gs []string
+								for _, id := range qpr.IDs {
+									gs = append(gs, fmt.Sprintf("%s.%d", rel(uint64(id.ID.MID)), uint64(id.ID.RID)))
+								}
+								gotS = vh.JoinStrs(gs, ",")
+							}
+							var ws []string
+							for i := 0; i < limit && i < len(sorted); i++ {
+								ws = append(ws, fmt.Sprintf("%s.%d", rel(sorted[i].mid), sorted[i].rid))
+							}
+							fmt.Printf("L\t%s\tr%d.%s.p%d.l%d\t%s\t%s\t%s\n", stage, ri, map[bool]string{true: "desc", false: "asc"}[desc], perIter, limit, status, gotS, vh.JoinStrs(ws, ","))
+						}
+					}
+				}
+			}
 		}
 		doFetch := func(label, class string, ids []seq.ID, present []bool, hints bool) {
 			req := &pb.FetchRequest{}
@@ -1273,9 +1415,52 @@ func sparseLateScenario(seed int64) scenario {
 	}}
 }
 
+// fractions that touch and overlap in time around one reference millisecond t = ct0 - 1_000_000: To of one fraction
+// equals MIDs stored in another, several RIDs per millisecond on both sides (RIDs grow with ingestion order, so a
+// later fraction holds the larger RIDs of a shared millisecond)
+func tiesScenario(r *vh.RNG, name string) scenario {
+	sc := scenario{Name: name, Seed: int64(r.U64() >> 1), Queries: 6, Fetches: 2, Limited: true}
+	t := int64(-1_000_000)
+	nf := r.Range(3, 4)
+	for k := 0; k < nf; k++ {
+		fs := fracSpec{Sealed: k < nf-1 || r.Bool()}
+		lo, hi := t+int64(r.Range(-2, 0)), t+int64(r.Range(0, 2)) // every fraction's range holds t
+		if r.Chance(1, 3) {
+			hi = t // To == t exactly
+		}
+		if r.Chance(1, 3) {
+			lo = t // From == t exactly
+		}
+		var bulk []docSpec
+		for m := lo; m <= hi; m++ {
+			n := r.Range(0, 2)
+			if m == t || m == lo || m == hi {
+				n = r.Range(1, 3)
+			}
+			for j := 0; j < n; j++ {
+				bulk = append(bulk, docSpec{Off: m, R0: true})
+			}
+		}
+		fs.Bulks = [][]docSpec{bulk}
+		sc.Fracs = append(sc.Fracs, fs)
+	}
+	return sc
+}
+
+// the fixed boundary witness: A = {t+5, t}, B = {t (larger RID), t-5} with B.To = t, and the ASC mirror image
+func tiesWitness(seed int64) scenario {
+	t := int64(-1_000_000)
+	return scenario{Name: "ties-witness", Seed: seed, Queries: 4, Fetches: 2, Limited: true, Fracs: []fracSpec{
+		{Sealed: true, Bulks: [][]docSpec{{{Off: t + 5, R0: true}, {Off: t, R0: true}}}},
+		{Sealed: true, Bulks: [][]docSpec{{{Off: t, R0: true}, {Off: t - 5, R0: true}}}},
+		{Sealed: false, Bulks: [][]docSpec{{{Off: t - 5, R0: true}, {Off: t - 9, R0: true}, {Off: t - 9, R0: true}}}},
+	}}
+}
+
 func systemOracle(o vh.Opts, rep *vh.Report, scs []scenario) {
 	fi := vh.NewChannel("frac.info", "REAL fractions (FracManager + GrpcV1.Bulk + seal + two restarts): Info().From/To/DocsTotal/Distribution and IsIntersecting on probe pairs vs SV.FracInfo (appendBulk per bulk, sealed = BuildDistribution over the stub and all MIDs); stages live / reloaded (.frac-cache) / reloaded-nocache (index info block); non-trivial = fraction has a distribution")
 	so := vh.NewOracle("prune.search", "real GrpcV1.Search(service:c14, [qf,qt]) over active+sealed fractions, live and after restarts, returns exactly the ingested documents with qf <= MID <= qt (every document of every fraction examined by the harness); non-trivial = some fraction was pruned and some document was in range")
+	lo := vh.NewOracle("search.toplimit", "real Searcher.SearchDocs over real active+sealed fractions that share boundary milliseconds (To of one = MIDs of another, several RIDs per millisecond on both sides), FractionsPerIteration 1..3, limits 1..n, both orders, no total: the IDs are exactly the first `limit` documents of the union in (MID,RID) order; non-trivial = limit > 1 and answer right")
 	fo := vh.NewOracle("prune.fetch", "real GrpcV1.Fetch(ids without hints) returns the ingested bytes of every requested document that exists, whatever other IDs are in the request; non-trivial = request mixes present and unknown IDs")
 	reported := map[string]bool{}
 	for i := range scs {
@@ -1347,6 +1532,20 @@ func systemOracle(o vh.Opts, rep *vh.Report, scs []scenario) {
 						rep.Note("%s/%s search #%s: ends %s (ctK = creation time of fraction K, ms) = [%d,%d] %s %s %s", sc.Name, f[1], f[2], f[10], qf, qt, f[7], f[8], f[9])
 					}
 				}
+			case "L":
+				// L stage label status got want
+				tie := strings.Contains(f[5], ",") // more than one expected ID
+				lo.Case(sc.Name+"/"+f[1]+"/"+f[2], tie && f[4] == f[5], "stage="+f[1], "status="+f[3], "order="+strings.Split(f[2], ".")[1], "perIter="+strings.Split(f[2], ".")[2])
+				if f[3] != "ok" || f[4] != f[5] {
+					site, class := "fracmanager/searcher.go:SearchDocs", "limited-result-not-top-of-union"
+					if !reported[site+class] {
+						reported[site+class] = true
+						rep.Violate(vh.Violation{Site: site, Class: class,
+							What:   fmt.Sprintf("scenario %s stage %s query %s (range.order.FractionsPerIteration.limit): Searcher.SearchDocs status=%s does not return the first `limit` documents of the union of all fractions in (MID,RID) order (lists in the evidence notes)", sc.Name, f[1], f[2], f[3]),
+							Replay: []string{replay, "limited " + f[1] + " " + f[2]}})
+						rep.Note("%s/%s limited %s: got %s want %s (ctK = creation time of fraction K, ms; id = mid.rid)", sc.Name, f[1], f[2], f[4], f[5])
+					}
+				}
 			case "F":
 				// F stage q class ids status missing=
 				fo.Case(sc.Name+"/"+f[1]+"/"+f[2]+"/"+f[4], !strings.HasPrefix(f[3], "present-only"), "stage="+f[1], "class="+f[3], "status="+f[5])
@@ -1378,6 +1577,7 @@ func systemOracle(o vh.Opts, rep *vh.Report, scs []scenario) {
 	}
 	rep.AddChannel(fi, o.Driver)
 	rep.AddOracle(so)
+	rep.AddOracle(lo)
 	rep.AddOracle(fo)
 }
 
@@ -1440,12 +1640,19 @@ func main() {
 	if run("info") {
 		infoChannel(o, rng.Fork(), rep)
 	}
+	if run("searcher") {
+		ensuredChannel(o, rng.Fork(), rep)
+	}
 	if run("prune") || run("frac") {
 		r := rng.Fork()
 		var scs []scenario
 		scs = append(scs, witnessScenario(int64(r.U64()>>1)))
 		scs = append(scs, denseScenario(int64(r.U64()>>1), o.Thorough()))
 		scs = append(scs, sparseLateScenario(int64(r.U64()>>1)))
+		scs = append(scs, tiesWitness(int64(r.U64()>>1)))
+		for i := 0; i < o.Pick(3, 10); i++ {
+			scs = append(scs, tiesScenario(r.Fork(), fmt.Sprintf("ties%d", i)))
+		}
 		n := o.Pick(4, 14)
 		for i := 0; i < n; i++ {
 			scs = append(scs, genScenario(r.Fork(), fmt.Sprintf("s%d", i), i%4 == 3, o.Thorough()))
